@@ -11,6 +11,9 @@
      ParseArgs   parse_args() + the "-o with several files" check
      CreateTmp   create_tmpfile(): mkstemp = atomic exclusive create of a fresh name
      Spawn       run_subprocess(): fork + execvp of cc1 (argv[0] -cc1) / as / ld
+     SpawnFail   the same, but the program cannot be executed (ENOENT / EACCES): no
+                 tool ever runs; the step has failed (the code: the forked child prints
+                 "exec failed" and _exit(1)s, which the parent sees as a failed step)
      ChildRun    what the child does to the file system, and how it ends
      Wait        wait(&status); status != 0 -> exit(1)
      Cleanup     atexit cleanup(): one unlink per step (interleavable)
@@ -25,7 +28,8 @@
      as   unlink(out); open(out, O_CREAT|O_TRUNC) first, then reads its input;
           on an error it unlinks out again.   ld: the same.
    Faults (at most one per run): the k-th call of cc1 / as / ld dies before
-   doing anything, by exit status or by a signal; an input file is missing
+   doing anything, by exit status or by a signal, or cannot be started at all
+   ("noexec": the tool is missing from PATH or not executable at that moment); an input file is missing
    (root cannot make a file unreadable) or erroneous; the -o path cannot be
    created.  For a C source the point at which the front end rejects it is
    explicit: "bad" is rejected by the tokenizer / preprocessor / parser, i.e.
@@ -77,7 +81,7 @@ VARIABLES ins,       \* kinds of the input files in the directory, shared by the
           pre,       \* "old" | "absent": what every possible output path holds initially
           dirfault,  \* [t: none|missing|bad|badgen, i]   a property of the directory
           cmd,       \* d -> [mode, o]
-          fault,     \* d -> [t: none|cc1|as|ld|unwritable, k, how: exit|signal]
+          fault,     \* d -> [t: none|cc1|as|ld|unwritable, k, how: exit|signal|noexec]
           prog,      \* d -> the step list of the command (ProgOf)
           fs,        \* path -> content tag
           pc, ip, tmps, child, ncall, failed, code, cl,
@@ -176,7 +180,7 @@ InitFrom(s) ==
   /\ prog = s.prog /\ fs = s.fs
   /\ Rest
 
-ToolFaults(pr) == {[t |-> tool, k |-> k, how |-> h] : tool \in Tools, k \in 1..MaxIn, h \in {"exit", "signal"}}
+ToolFaults(pr) == {[t |-> tool, k |-> k, how |-> h] : tool \in Tools, k \in 1..MaxIn, h \in {"exit", "signal", "noexec"}}
 FaultsOf(insV, c, d) ==
   LET pr == ProgOf(insV, c, d) IN
   {NoF} \cup (IF Usage(insV, c) THEN {} ELSE
@@ -233,14 +237,29 @@ CreateTmp(d, n) ==            \* create_tmpfile()
   /\ pc' = [pc EXCEPT ![d] = Advance(d, tmps'[d])]
   /\ UNCHANGED <<ins, pre, dirfault, cmd, fault, prog, child, ncall, failed, code, cl, sf, failstep, wrote, clob, log>>
 
+NoExec(d) == LET o == prog[d][ip[d]] IN       \* this call is the one that cannot be started
+  fault[d].t = o.op /\ fault[d].how = "noexec" /\ fault[d].k = ncall[d][o.op] + 1
+
 Spawn(d) ==                   \* fork + execvp
-  /\ pc[d] = "run" /\ prog[d][ip[d]].op \in Tools
+  /\ pc[d] = "run" /\ prog[d][ip[d]].op \in Tools /\ ~NoExec(d)
   /\ LET o == prog[d][ip[d]] IN
      /\ child' = [child EXCEPT ![d] = [tool |-> o.op, ins |-> [j \in DOMAIN o.ins |-> Res(d, o.ins[j])],
                                        out |-> Res(d, o.out), fin |-> o.fin, status |-> "run"]]
      /\ ncall' = [ncall EXCEPT ![d][o.op] = @ + 1]
   /\ pc' = [pc EXCEPT ![d] = "child"]
   /\ UNCHANGED <<ins, pre, dirfault, cmd, fault, prog, fs, ip, tmps, failed, code, cl, sf, failstep, wrote, clob, owner, interf, log>>
+
+SpawnFail(d) ==               \* execvp fails: nothing runs, nothing is touched, the step has failed
+  /\ pc[d] = "run" /\ prog[d][ip[d]].op \in Tools /\ NoExec(d)
+  /\ LET o == prog[d][ip[d]]  out == Res(d, o.out)  bad == CheckWait IN
+     /\ ncall' = [ncall EXCEPT ![d][o.op] = @ + 1]
+     /\ sf' = [sf EXCEPT ![d] = TRUE]
+     /\ failstep' = IF failstep[d] = NoStep THEN [failstep EXCEPT ![d] = [tool |-> o.op, out |-> out, fin |-> o.fin]] ELSE failstep
+     /\ failed' = [failed EXCEPT ![d] = @ \/ bad]
+     /\ pc' = [pc EXCEPT ![d] = IF bad THEN AfterMain(tmps[d]) ELSE Advance(d, tmps[d])]
+     /\ ip' = [ip EXCEPT ![d] = IF bad THEN @ ELSE @ + 1]
+     /\ log' = [log EXCEPT ![d] = Append(@, [tool |-> o.op, ins |-> [j \in DOMAIN o.ins |-> Res(d, o.ins[j])], out |-> out, status |-> "noexec"])]
+  /\ UNCHANGED <<ins, pre, dirfault, cmd, fault, prog, fs, tmps, child, code, cl, wrote, clob, owner, interf>>
 
 (* outcome of a child: <<status, fs', wrote-new-content?, clobbered?>> *)
 Outcome(d) ==
@@ -312,7 +331,7 @@ Exit(d) ==
      ELSE TRUE
   /\ UNCHANGED <<ins, pre, dirfault, cmd, fault, prog, fs, ip, tmps, child, ncall, failed, cl, sf, failstep, wrote, clob, owner, interf, log>>
 
-DNext(d) == ParseArgs(d) \/ CreateTmp(d, PickTmp(d)) \/ Spawn(d) \/ ChildRun(d) \/ Wait(d) \/ Cleanup(d) \/ Exit(d)
+DNext(d) == ParseArgs(d) \/ CreateTmp(d, PickTmp(d)) \/ Spawn(d) \/ SpawnFail(d) \/ ChildRun(d) \/ Wait(d) \/ Cleanup(d) \/ Exit(d)
 Next == \E d \in D : DNext(d)
 Spec == Init /\ [][Next]_vars /\ \A d \in D : WF_vars(DNext(d))
 (* a slice for the two-driver sensitivity control: both commands compile and link *)
